@@ -54,6 +54,10 @@ CHECKS.update({
     'C19': dict(category='model_checking', text='TLC checks that Compress declares an encoding only if offered, enabled and at threshold; real servers then answer sequences of requests on one instance (polls carrying 19 payload classes incl. quotes, backslashes, line terminators, U+2028/9, control, non-BMP, binary; POST acks; 400s; JSONP polls) under 17 Accept-Encoding shapes, compression on/off and thresholds just below / at / above the body size; the harness undoes the declared encoding with stdlib gzip/zlib, evaluates the JSONP literal by JavaScript rules, and TLC validates declared encoding, losslessness and one-statement JSONP per record.', note=TABLE_NOTE, technique='TLA+ spec EioHttp (Compress, JSONP): TLC over cells + TLC validation of real responses', design_ref='6 (C19), 3.4', engine='tlc-table'),
 })
 
+CHECKS.update({
+    'C20': dict(category='model_checking', text='TLC checks the route-table facts of EioRoute (a path escaping the mapped directory is never served; the engine is reached iff the path lies under the endpoint) over all cells; the real WSGIApp and ASGIApp are then exercised against a temporary directory tree with unique file contents and a secret outside every root: all request paths of <= 3 (quick) / 4 (thorough) segments over a 14-segment alphabet (endpoint, prefix-sharing name, mapped keys, files, ".", "..", empty, %2e%2e, sub-directory, missing) plus absolute-path and deep-traversal spellings of the secret, x 8 static mappings (directory with/without slash, file, root, default-file override, explicit content types, none) x endpoint spellings x wrapped app present/absent; each response is abstracted by a reference resolver (under endpoint / matches / exists / dot segments / escapes) and TLC validates outcome, file-beneath-root, content and content type against the table; ASGI lifespan: all event sequences of length <= 3 x 4 x 4 callback kinds x wrapped app, validated against LifeSends.', note=TABLE_NOTE, technique='TLA+ spec EioRoute: TLC over all cells + TLC validation of real WSGIApp / ASGIApp responses on a real directory tree', design_ref='6 (C20), 3.5', engine='tlc-table'),
+})
+
 NOT_YET = 'check not built yet at this commit (construction order in DESIGN.md section 8)'
 
 
